@@ -12,13 +12,19 @@
    - a run of the tool that ends with "ok" leaves a row for every entry of the full tiles of the
      published tree (of the whole tree when it has no full tile): deduplication is restored;
    - the dedup identity depends only on (type, issuer key hash if precertificate, certificate/TBS).
+   - the legacy 128-bit table (cacheGet's fallback, Ctlog/Legacy.v: cache_get2): without a legacy
+     table cacheGet IS the lookup the world model uses (C07_legacy_absent_is_plain), a 256-bit row
+     always wins, an answer from the legacy table names an index holding a committed entry whose key
+     agrees on 128 bits (C07_legacy_answer_truncated), hence THAT entry when no committed entry
+     collides with it on 128 bits (C07_legacy_answer_sound); the premise is necessary
+     (C07_legacy_answer_refuted: with a colliding hash the table answers a different entry's index).
    Not covered here: byte-identity of the SCT signature (RFC 6979 determinism is observed by the
-   C11 harness) and the legacy 128-bit cache table (its soundness rests on second-preimage
-   resistance of a truncated hash, which no theorem over an arbitrary [sha] can give). The two
+   C11 harness); the legacy table is not part of the world model's state (it is a pure lookup
+   layer; its rows are assumed to have been valid cache rows of a committed history). The two
    copies of computeCacheHash (ctlog.go / cmd/recompute-cache) are one function in the model
    (ckey / leaf_ckey); that the tool's copy computes it is what the correspondence run checks by
    running the real binary (cache rows compared row by row, monitor C07.cacherow). *)
-From SL Require Import Ctlog.Model Ctlog.Spec Ctlog.Inv2 Ctlog.Theorems2 Ctlog.Example.
+From SL Require Import Ctlog.Model Ctlog.Spec Ctlog.Inv2 Ctlog.Theorems2 Ctlog.Example Ctlog.Legacy Ctlog.LegacyProofs.
 
 Theorem C07_resubmission_joins_pending : forall sha c p inseq cache e low victim wid wd,
   in_pool sha p (ckey sha e) = Some wd \/ (in_pool sha p (ckey sha e) = None /\ in_pool sha inseq (ckey sha e) = Some wd) ->
@@ -68,3 +74,40 @@ Example C07_recompute_example :
    | Some x => cache_get (i_cache x) (ckey toy_sha (ent x31)) | None => None end) = Some (0%N, 20%Z) /\
   snd (step toy_sha world_rc (EvRecompute 0 8 None)) = [ObsNote "recompute-signature"; ObsCache 0 []].
 Proof. vm_compute. repeat split; auto. Qed.
+
+(* ---------- the legacy 128-bit table (cache.go: cacheGet) ---------- *)
+Theorem C07_legacy_absent_is_plain : forall c k,
+  lc_flag c = false \/ lc_legacy c = None -> fst (cache_get2 c k) = cache_get (lc_256 c) k.
+Proof. exact cache_get2_plain. Qed.
+Print Assumptions C07_legacy_absent_is_plain.
+
+Theorem C07_legacy_256_first : forall c k v, cache_get (lc_256 c) k = Some v -> cache_get2 c k = (Some v, c).
+Proof. exact cache_get2_256_first. Qed.
+Print Assumptions C07_legacy_256_first.
+
+Theorem C07_legacy_answer_truncated : forall (sha : bytes -> bytes) h c e idx ts,
+  cache_ok sha h (lc_256 c) -> (forall l, lc_legacy c = Some l -> legacy_ok sha h l) ->
+  fst (cache_get2 c (ckey sha e)) = Some (idx, ts) ->
+  exists k, firstn 16 k = firstn 16 (ckey sha e) /\ holds_at sha h k idx ts.
+Proof. exact legacy_answer_truncated. Qed.
+Print Assumptions C07_legacy_answer_truncated.
+
+Theorem C07_legacy_answer_sound : forall (sha : bytes -> bytes) h c e idx ts,
+  cache_ok sha h (lc_256 c) -> (forall l, lc_legacy c = Some l -> legacy_ok sha h l) ->
+  (forall k i t, holds_at sha h k i t -> firstn 16 k = firstn 16 (ckey sha e) -> k = ckey sha e) ->
+  fst (cache_get2 c (ckey sha e)) = Some (idx, ts) -> holds_at sha h (ckey sha e) idx ts.
+Proof. exact legacy_answer_sound. Qed.
+Print Assumptions C07_legacy_answer_sound.
+
+Theorem C07_legacy_rows_of_valid_cache : forall (sha : bytes -> bytes) h r,
+  cache_ok sha h r -> legacy_ok sha h (truncate_rows r []).
+Proof. exact truncated_rows_of_valid_cache. Qed.
+Print Assumptions C07_legacy_rows_of_valid_cache.
+
+Theorem C07_legacy_answer_refuted :
+  cache_ok id_sha col_hist [(ckey id_sha col_e1, (0%N, 20%Z))] /\
+  (forall l, lc_legacy col_cache = Some l -> legacy_ok id_sha col_hist l) /\
+  fst (cache_get2 col_cache (ckey id_sha col_e2)) = Some (0%N, 20%Z) /\
+  ~ holds_at id_sha col_hist (ckey id_sha col_e2) 0 20.
+Proof. exact legacy_answer_refuted. Qed.
+Print Assumptions C07_legacy_answer_refuted.
